@@ -1,6 +1,7 @@
 package regnet
 
 import (
+	"encoding/hex"
 	"fmt"
 	"os"
 	"path/filepath"
@@ -12,6 +13,7 @@ import (
 	"github.com/elastos/Elastos.ELA/common"
 	"github.com/elastos/Elastos.ELA/common/config"
 	"github.com/elastos/Elastos.ELA/core/types"
+	"github.com/elastos/Elastos.ELA/core/types/payload"
 	"github.com/elastos/Elastos.ELA/dpos/state"
 )
 
@@ -22,6 +24,7 @@ import (
 //	init <reward> <maturity> <minFee> <guardFrom> <checkRewardFrom> <genesis block>
 //	deliver <block>      → main|side|orphan|err <tipHeight> <tipId>
 //	deliverw <timestamp> <bits> <block>   (same, header time and difficulty given explicitly)
+//	deliverc <block>     (same as deliver, with a dummy non-nil block confirmation; POW consensus mode only)
 //	submit <tx>          → ok | err
 //	irr <lih> <dpos> <revertStart>
 //	obs <q>*             u<txid> a<addr> t<txid> p c h
@@ -36,8 +39,11 @@ type Sim struct {
 	// retarget every 10 blocks, so blocks can carry different work); blocks then travel as
 	// `deliverw <timestamp> <bits> <block>`.
 	Retarget bool
-	dir      string
-	seq      int
+	// OwnArbiter makes account 0 the only origin arbiter (always on duty), so that side-chain mining
+	// proofs (SideChainPow transactions) can be signed by the harness.
+	OwnArbiter bool
+	dir        string
+	seq        int
 	// LastErr is the error text of the last deliver/submit (for oracles and debugging).
 	LastErr string
 }
@@ -72,6 +78,11 @@ func (s *Sim) reset() {
 	n, err := NewNode(s.dir, Options{CoinbaseMaturity: s.Maturity, Tweak: func(p *config.Configuration) {
 		if s.GuardFrom != 0 {
 			p.CRCOnlyDPOSHeight = s.GuardFrom
+		}
+		if s.OwnArbiter {
+			ac, _ := accountFor(0)
+			pk, _ := ac.PublicKey.EncodePoint(true)
+			p.DPoSConfiguration.OriginArbiters = []string{hex.EncodeToString(pk)}
 		}
 		if s.Retarget {
 			p.PowConfiguration.PowLimitBits = 0x2000ffff
@@ -205,7 +216,7 @@ func (s *Sim) Exec(t []string) string {
 			return "bad-init"
 		}
 		return "ok"
-	case "deliver", "deliverw":
+	case "deliver", "deliverw", "deliverc":
 		var ts, bits uint64
 		rest := t[1:]
 		if t[0] == "deliverw" {
@@ -222,7 +233,15 @@ func (s *Sim) Exec(t []string) string {
 		if err != nil {
 			panic("harness: " + err.Error())
 		}
-		inMain, orphan, err := s.N.Deliver(blk)
+		var inMain, orphan bool
+		if t[0] == "deliverc" {
+			// with a (dummy) block confirmation: it is ignored in POW consensus mode, the only mode the
+			// generators use it in, but `confirm != nil` takes other branches of the chain code
+			s.N.register(blk)
+			inMain, orphan, err = s.N.Chain.ProcessBlock(blk, &payload.Confirm{Proposal: payload.DPOSProposal{BlockHash: blk.Hash()}, Votes: []payload.DPOSProposalVote{}})
+		} else {
+			inMain, orphan, err = s.N.Deliver(blk)
+		}
 		r := "side"
 		switch {
 		case err != nil:
